@@ -5,6 +5,7 @@ package interceptedBlocks_test
 
 import (
 	"bytes"
+	"math"
 	"math/big"
 	"testing"
 
@@ -472,6 +473,17 @@ func TestVerifC18_RegressBlocks(t *testing.T) {
 	o := tg.Intercept(big, marshal.NewSizeCheckUnmarshalizer(m, 10))
 	if o.Accepted && mb.Equal(o.Content) {
 		kit.FailPlain(t, "C18", "C18:miniblock:oversize-accepted", "miniblock of %d bytes accepted as encoding of a %d byte object with delta 10", len(big), len(b0))
+	}
+	// stacked decorators (a lax one installed first on the shared marshalizer, the node's delta on top, and the reverse):
+	// the strictest delta is the bound
+	for _, st := range [][]uint32{{math.MaxUint32, 10}, {10, math.MaxUint32}, {100, 10}} {
+		var mm marshal.Marshalizer = m
+		for _, d := range st {
+			mm = marshal.NewSizeCheckUnmarshalizer(mm, d)
+		}
+		if o = tg.Intercept(big, mm); o.Accepted && mb.Equal(o.Content) {
+			kit.FailPlain(t, "C18", "C18:miniblock:oversize-accepted", "miniblock of %d bytes accepted as encoding of a %d byte object with stacked size checks %v", len(big), len(b0), st)
+		}
 	}
 	_ = process.ErrNilBuffer
 }
